@@ -191,30 +191,44 @@ Proof.
 Qed.
 
 (* ================================================================= concat *)
-Theorem denote_concat : forall fresh a b, wf a -> wf b ->
-  denote (concat fresh a b) = denote a ++ denote b.
+Theorem denote_concat : forall fresh a b d, wf a -> wf b -> concat fresh a b = Some d ->
+  denote d = denote a ++ denote b.
 Proof.
-  intros fresh a b Ha Hb. unfold concat.
+  intros fresh a b d Ha Hb. unfold concat.
   destruct (Z.eqb_spec (size a) 0) as [Ea|Ea].
-  - rewrite (size_zero_empty a Ha Ea). reflexivity.
+  - intro E; inversion E; subst. rewrite (size_zero_empty a Ha Ea). reflexivity.
   - destruct (Z.eqb_spec (size b) 0) as [Eb|Eb].
-    + rewrite (size_zero_empty b Hb Eb). simpl. now rewrite app_nil_r.
-    + simpl. rewrite flat_map_app, !records_of_denote. reflexivity.
+    + intro E; inversion E; subst. rewrite (size_zero_empty b Hb Eb). simpl. now rewrite app_nil_r.
+    + destruct (M64 <=? size a + size b); [discriminate|]. intro E; inversion E; subst.
+      simpl. rewrite flat_map_app, !records_of_denote. reflexivity.
 Qed.
 
-Theorem wf_concat : forall fresh a b, wf a -> wf b -> fresh <> EMPTY_ID -> size a + size b < M64 ->
-  wf (concat fresh a b) /\ size (concat fresh a b) = size a + size b.
+Theorem wf_concat : forall fresh a b d, wf a -> wf b -> fresh <> EMPTY_ID -> concat fresh a b = Some d ->
+  wf d /\ size d = size a + size b.
 Proof.
-  intros fresh a b Ha Hb Hf Hlt. unfold concat.
+  intros fresh a b d Ha Hb Hf. unfold concat.
   pose proof (size_nonneg a Ha). pose proof (size_nonneg b Hb).
-  destruct (Z.eqb_spec (size a) 0) as [Ea|Ea]; [split; [assumption|lia]|].
-  destruct (Z.eqb_spec (size b) 0) as [Eb|Eb]; [split; [assumption|lia]|].
-  simpl. rewrite u64_small by lia. split; [|reflexivity].
+  destruct (Z.eqb_spec (size a) 0) as [Ea|Ea]; [intro E; inversion E; subst; split; [assumption|lia]|].
+  destruct (Z.eqb_spec (size b) 0) as [Eb|Eb]; [intro E; inversion E; subst; split; [assumption|lia]|].
+  destruct (Z.leb_spec M64 (size a + size b)); [discriminate|]. intro E; inversion E; subst.
+  split; [|reflexivity].
   split; [assumption|]. split.
   - destruct a; simpl; discriminate || (destruct Ha as (_ & Hn & _); destruct recs; [congruence|discriminate]).
   - split; [apply Forall_app; split; apply records_of_wf; assumption|].
     split; [rewrite sum_len_app, !records_of_sum by assumption; reflexivity|].
-    split; [lia|discriminate].
+    split; [simpl; lia|discriminate].
+Qed.
+
+(* an object is returned exactly when the total size fits in size_t (or an operand is empty) *)
+Theorem concat_total : forall fresh a b, wf a -> wf b ->
+  (size a + size b < M64 -> exists d, concat fresh a b = Some d) /\
+  (size a <> 0 -> size b <> 0 -> M64 <= size a + size b -> concat fresh a b = None).
+Proof.
+  intros fresh a b Ha Hb. unfold concat. split.
+  - intro Hlt. destruct (size a =? 0); [eauto|]. destruct (size b =? 0); [eauto|].
+    destruct (Z.leb_spec M64 (size a + size b)); [lia|eauto].
+  - intros Ea Eb Hge. destruct (Z.eqb_spec (size a) 0); [contradiction|]. destruct (Z.eqb_spec (size b) 0); [contradiction|].
+    destruct (Z.leb_spec M64 (size a + size b)); [reflexivity|lia].
 Qed.
 
 (* ================================================================= subrange *)
@@ -634,9 +648,154 @@ Proof.
   induction 1.
   - apply wf_empty.
   - simpl. split; [assumption|]. simpl. split; intro; contradiction.
-  - apply wf_concat; assumption.
+  - exact (proj1 (wf_concat f a b d IHbuilt1 IHbuilt2 H1 H2)).
   - destruct (subrange_spec f a off len IHbuilt H0 H1 H2) as (d' & E & Hw & _). congruence.
   - destruct (map_spec f a IHbuilt H0) as (d' & E & Hw & _). congruence.
   - destruct (copy_region_spec f a loc IHbuilt H0 H1) as (r & o & E & Hw & _). congruence.
   - apply flatten_priv_spec. assumption.
 Qed.
+
+(* ================================================================= ownership: a destructor never runs twice *)
+(* J: every id whose destructor has been called is gone from the heap, and dlog has no duplicates *)
+Definition dinv (st : state) : Prop := NoDup (dlog st) /\ forall k, In k (dlog st) -> heap st k = None.
+
+Lemma hupd_same : forall h k e, hupd h k e k = e.
+Proof. intros. unfold hupd. now rewrite Z.eqb_refl. Qed.
+Lemma hupd_other : forall h k e j, j <> k -> hupd h k e j = h j.
+Proof. intros. unfold hupd. destruct (Z.eqb_spec j k); congruence. Qed.
+
+Lemma NoDup_snoc : forall (l : list Z) x, NoDup l -> ~ In x l -> NoDup (l ++ [x]).
+Proof.
+  induction l as [|y t IH]; intros x Hn Hx; simpl; [constructor; [tauto|constructor]|].
+  inversion Hn; subst. constructor.
+  - rewrite in_app_iff. simpl. intros [?|[?|[]]]; [tauto|]. subst. apply Hx. now left.
+  - apply IH; [assumption|]. intro. apply Hx. now right.
+Qed.
+
+Lemma dinv_upd_live : forall st k e e', dinv st -> heap st k = Some e ->
+  dinv (mkState (hupd (heap st) k (Some e')) (dlog st) (flog st)).
+Proof.
+  intros st k e e' [Hn Hd] Hk. split; [assumption|]. simpl. intros j Hj.
+  destruct (Z.eq_dec j k) as [->|Hne]; [rewrite (Hd k Hj) in Hk; discriminate|].
+  rewrite hupd_other by assumption. auto.
+Qed.
+
+Lemma dinv_retain : forall st id, dinv st -> dinv (retain_id st id).
+Proof.
+  intros st id H. unfold retain_id. destruct (id =? EMPTY_ID); [assumption|].
+  destruct (heap st id) eqn:E; [|assumption]. eapply dinv_upd_live; eassumption.
+Qed.
+
+Lemma dinv_release_leaf : forall st id, dinv st -> dinv (release_leaf st id).
+Proof.
+  intros st id H. unfold release_leaf. destruct (id =? EMPTY_ID); [assumption|].
+  destruct (heap st id) as [e|] eqn:E; [|assumption].
+  assert (Hfree : dinv (mkState (hupd (heap st) id None) (dlog st ++ [id]) (flog st ++ [id]))).
+  { destruct H as [Hn Hd]. split; simpl.
+    - apply NoDup_snoc; [assumption|]. intro Hi. rewrite (Hd _ Hi) in E. discriminate.
+    - intros j Hj. apply in_app_or in Hj. destruct Hj as [Hj|[<-|[]]].
+      + destruct (Z.eq_dec j id) as [->|Hne]; [apply hupd_same|]. rewrite hupd_other by assumption. auto.
+      + apply hupd_same. }
+  destruct (e_rc e) as [|[|n]]; try assumption. eapply dinv_upd_live; eassumption.
+Qed.
+
+Lemma dinv_fold_release : forall recs st, dinv st ->
+  dinv (fold_left (fun s r => release_leaf s (l_id (r_obj r))) recs st).
+Proof. induction recs; intros; simpl; [assumption|]. apply IHrecs. apply dinv_release_leaf. assumption. Qed.
+
+Lemma dinv_fold_retain : forall recs st, dinv st ->
+  dinv (fold_left (fun s r => retain_id s (l_id (r_obj r))) recs st).
+Proof. induction recs; intros; simpl; [assumption|]. apply IHrecs. apply dinv_retain. assumption. Qed.
+
+Lemma dinv_release : forall st id, dinv st -> dinv (release_id st id).
+Proof.
+  intros st id H. unfold release_id. destruct (id =? EMPTY_ID); [assumption|].
+  destruct (heap st id) as [e|] eqn:E; [|assumption].
+  assert (Hgone : forall recs, dinv (fold_left (fun s r => release_leaf s (l_id (r_obj r))) recs
+                    (mkState (hupd (heap st) id None) (dlog st) (flog st ++ [id])))).
+  { intro recs. apply dinv_fold_release. destruct H as [Hn Hd]. split; [assumption|]. simpl. intros j Hj.
+    destruct (Z.eq_dec j id) as [->|Hne]; [apply hupd_same|]. rewrite hupd_other by assumption. auto. }
+  destruct (e_rc e) as [|[|n]].
+  - destruct (e_obj e); [apply dinv_release_leaf; assumption|apply Hgone].
+  - destruct (e_obj e); [apply dinv_release_leaf; assumption|apply Hgone].
+  - eapply dinv_upd_live; eassumption.
+Qed.
+
+(* an object that is not yet in the heap may only be adopted under an id that was never destroyed *)
+Lemma dinv_adopt : forall st d, dinv st -> (heap st (obj_id d) = None -> ~ In (obj_id d) (dlog st)) -> dinv (adopt st d).
+Proof.
+  intros st d H Hfresh. unfold adopt. destruct (obj_id d =? EMPTY_ID); [assumption|].
+  destruct (heap st (obj_id d)) eqn:E; [apply dinv_retain; assumption|].
+  assert (Hnew : dinv (mkState (hupd (heap st) (obj_id d) (Some (mkEntry d 1%nat))) (dlog st) (flog st))).
+  { destruct H as [Hn Hd]. split; [assumption|]. simpl. intros j Hj.
+    destruct (Z.eq_dec j (obj_id d)) as [->|Hne]; [exfalso; apply (Hfresh eq_refl); assumption|].
+    rewrite hupd_other by assumption. auto. }
+  destruct d; [assumption|]. apply dinv_fold_retain. assumption.
+Qed.
+
+(* ids handed to the library for new objects have never been used for a destroyed buffer *)
+Definition op_fresh_ok (st : state) (o : op) : Prop :=
+  match o with
+  | OCreate id _ | OConcat id _ _ | OSubrange id _ _ _ | OMap id _ | OCopyRegion id _ _ =>
+      ~ In id (dlog st) /\ heap st id = None
+  | _ => True
+  end.
+
+Lemma get_live : forall st a d, get st a = Some d -> a <> EMPTY_ID -> exists e, heap st a = Some e /\ e_obj e = d.
+Proof.
+  intros st a d H Hne. unfold get in H. destruct (Z.eqb_spec a EMPTY_ID); [congruence|].
+  destruct (heap st a) as [e|]; [|discriminate]. exists e. split; congruence.
+Qed.
+
+(* the object a deriving call returns is live, or carries an id that was never destroyed.  For results that are new
+   objects (id = fresh) this is op_fresh_ok; for results that are the operand it is liveness of the operand; for results
+   that are a record's leaf (subrange / copy_region hitting a whole leaf) it needs the reference-count invariant
+   rc = handles + records, which is NOT proved here (see Properties_C13.v). *)
+Definition result_ok (st : state) (o : op) : Prop :=
+  match step st o with
+  | Some (_, d) => heap st (obj_id d) = None -> ~ In (obj_id d) (dlog st)
+  | None => True
+  end.
+
+Lemma dinv_step : forall st o st' d, dinv st -> op_fresh_ok st o -> result_ok st o -> step st o = Some (st', d) -> dinv st'.
+Proof.
+  intros st o st' d H Hf Hr Hs. unfold result_ok in Hr. rewrite Hs in Hr.
+  destruct o; simpl in Hs, Hf.
+  - (* create *) unfold create in Hs. destruct bytes; inversion Hs; subst; clear Hs.
+    + destruct H as [Hn Hd]. destruct Hf as [Hf1 Hf2]. split; simpl; [apply NoDup_snoc; assumption|].
+      intros j Hj. apply in_app_or in Hj. destruct Hj as [Hj|[<-|[]]]; auto.
+    + destruct H as [Hn Hd]. destruct Hf as [Hf1 Hf2]. split; [assumption|]. simpl. intros j Hj.
+      destruct (Z.eq_dec j id) as [->|Hne]; [contradiction|]. rewrite hupd_other by assumption. auto.
+  - destruct (get st a), (get st b); try discriminate. destruct (concat fresh d0 d1); try discriminate.
+    inversion Hs; subst. apply dinv_adopt; assumption.
+  - destruct (get st a); try discriminate. destruct (subrange fresh d0 off len); try discriminate.
+    inversion Hs; subst. apply dinv_adopt; assumption.
+  - destruct (get st a); try discriminate. destruct (map fresh d0) as [[[? ?] ?]|]; try discriminate.
+    inversion Hs; subst. apply dinv_adopt; assumption.
+  - destruct (get st a); try discriminate. destruct (copy_region fresh d0 loc) as [[? ?]|]; try discriminate.
+    inversion Hs; subst. apply dinv_adopt; assumption.
+  - destruct (get st a); try discriminate. destruct (a =? EMPTY_ID); [inversion Hs; subst; assumption|].
+    destruct (heap st a) eqn:E; try discriminate. inversion Hs; subst. eapply dinv_upd_live; eassumption.
+  - destruct (get st a); try discriminate. inversion Hs; subst. apply dinv_retain. assumption.
+  - destruct (get st a); try discriminate. inversion Hs; subst. apply dinv_release. assumption.
+Qed.
+
+(* histories: every step uses a never-used id for a new object and returns a live-or-never-destroyed object *)
+Fixpoint history_ok (st : state) (ops : list op) : Prop :=
+  match ops with
+  | [] => True
+  | o :: rest => op_fresh_ok st o /\ result_ok st o /\
+                 match step st o with Some (st', _) => history_ok st' rest | None => True end
+  end.
+
+Theorem destructor_at_most_once : forall ops st st', dinv st -> history_ok st ops -> run st ops = Some st' ->
+  NoDup (dlog st') /\ forall k, In k (dlog st') -> heap st' k = None.
+Proof.
+  induction ops as [|o rest IH]; intros st st' H Hh Hr; simpl in *.
+  - inversion Hr; subst. exact H.
+  - destruct Hh as (Hf & Hres & Hrest). destruct (step st o) as [[st1 d]|] eqn:E; [|discriminate].
+    apply (IH st1 st'); [eapply dinv_step; eassumption|assumption|assumption].
+Qed.
+
+Lemma dinv_st0 : dinv st0.
+Proof. split; [constructor|]. intros k []. Qed.
